@@ -232,6 +232,45 @@ def run_d(ck, prog, crate, n_parsers, n_literals, cli_types=True):
                         if not (some and payload):
                             why7 = "a required field must be the payload of its slot, taken on the edge where the slot is Some (the None edge reports `Required .. not supplied`)"
                     ck.ob("C20.7", f"{short}|field-filled-according-to-its-kind|{fname}", why7 is None, fn=p, site=ctx.site(bb7), detail=why7 or "ok")
+        # C20.7 (positional order): when a running counter decides which positional slot a token goes to, it counts positionals only -
+        # every increment follows a positional assignment it guarded (a counter that every loop round advances lets options shift the slots)
+        if p.endswith("::arg_parse"):
+            names8 = {x["p"]["l"]: x["n"] for x in fn.get("names", []) if isinstance(x.get("p", {}).get("l"), int) and not x["p"].get("p")}
+            incs = {}
+            for b in fn["blocks"]:
+                if b["id"] not in ctx.cfg.live_blocks() or b.get("cleanup") or not ctx.cfg.in_cycle(b["id"]):
+                    continue
+                for i, st8 in enumerate(b["stmts"]):
+                    if st8["k"] == "assign" and not st8["dst"].get("p"):
+                        e8 = strip_casts(ctx.prov.rvalue(st8["rv"], (b["id"], i)))
+                        if isinstance(e8, tuple) and e8[0] == "field" and isinstance(e8[1], tuple) and e8[1][0] == "bin":
+                            e8 = e8[1]
+                        if isinstance(e8, tuple) and e8[0] == "bin" and e8[1] in ("Add", "AddWithOverflow") and fold(e8[3]) == 1 and isinstance(strip_casts(e8[2]), tuple) and strip_casts(e8[2])[0] == "var" and strip_casts(e8[2])[1] == st8["dst"]["l"]:
+                            incs.setdefault(st8["dst"]["l"], []).append(b["id"])
+                        elif isinstance(e8, tuple) and e8[0] == "bin" and e8[1] in ("Add", "AddWithOverflow") and fold(e8[3]) == 1:
+                            # `tmp = c + 1; c = move tmp`: attribute the increment to the local that is read
+                            src8 = strip_casts(e8[2])
+                            if isinstance(src8, tuple) and src8[0] == "var":
+                                incs.setdefault(src8[1], []).append(b["id"])
+            for cl, inc_blocks in incs.items():
+                guarded = []
+                for b in fn["blocks"]:
+                    if b["id"] not in ctx.cfg.live_blocks() or b.get("cleanup"):
+                        continue
+                    if not ctx.cfg.in_cycle(b["id"]):
+                        continue
+                    for i8, st8 in enumerate(b["stmts"]):
+                        if st8["k"] == "assign" and not st8["dst"].get("p") and st8["dst"]["l"] in names8 and st8["dst"]["l"] != cl:
+                            v8 = strip_casts(ctx.prov.rvalue(st8["rv"], (b["id"], i8)))
+                            if not (isinstance(v8, tuple) and v8[0] == "agg" and v8[2] == "Some"):
+                                continue
+                            if any(f[0] == "cmp" and any(mentions(x, ctx.prov, lambda z: z[0] == "var" and z[1] == cl) for x in (f[2], f[3])) for f in panics.dominating_facts(ctx, b["id"])):
+                                guarded.append(b["id"])
+                if not guarded:
+                    continue
+                loose = [ib for ib in inc_blocks if not any(ctx.cfg.dominates(g, ib) for g in guarded)]
+                ck.ob("C20.7", f"{short}|slot-counter-advances-only-with-a-positional|{names8.get(cl, cl)}", not loose, fn=p, site=ctx.site(loose[0]) if loose else None,
+                      detail="the counter that selects the positional slot is advanced on a path that did not store a positional (an option token moves later positionals into the wrong slot)")
         # C20.6: the declared grammar is the only thing that decides what happens to a token
         if p.endswith("::arg_parse"):
             ALLOWED_CONSUMERS = ("Try::branch", "FromResidual::from_residual", "fmt::Arguments::<'a>::new", "ArgParseError::new_cause_fmt", "ArgParseError::new_cause_str", "UnixStr::as_str", "FromStr::from_str",
